@@ -2,6 +2,7 @@ CONSTANTS HW = 10
           Margins = {21}
           Anchors = {1, 2}
           NMax = 8
-          GenMod = 24
+          GenMod = 32
+          TPad = 3
 INIT Init
 NEXT EvalGen
